@@ -141,6 +141,10 @@ def run(ctx):
         spec_lines.append("tplspec 1 %s %s" % (G.enc(doc), ",".join(toks)))
     spec_out, _ = core.run_lines_parallel(drv, spec_lines, jobs=12, env=None)
     cases = pointer_sort_cases(rng) + group_cases(rng)
+    # templates without any tag: the parsed cache stays empty, so every render through the shared cache parses again
+    # (threads must not write to the shared cache then either)
+    for t in ["", "plain text", "a < b & c", "no tag {here", "}", "{", "<", "<loop", "{var:", "text with } and > only", "x" * 70]:
+        cases.append((("o", [(G.U("n"), ("n", 1))]), G.U(t)))
     n_fixed = len(cases)
     for doc, o in zip(docs, spec_out):
         t = o.split(" ")
@@ -152,7 +156,8 @@ def run(ctx):
         for w in ("1", "2") if k % 4 == 0 else ("1",):
             lines.append("tplcache %s %s %s" % (w, enc_r(doc), core.show_units(units)))
     GROUP = core.show_units(G.U(' group="'))
-    thr_lines = [l.replace("tplcache", "tplthreads", 1) for k, l in enumerate(lines) if k % 5 == 0 or GROUP in l]
+    n_special = len(pointer_sort_cases(rng)) + 80 + 11     # pointer-sort, group and tag-less cases come first
+    thr_lines = [l.replace("tplcache", "tplthreads", 1) for k, l in enumerate(lines) if k % 5 == 0 or GROUP in l or k < 2 * n_special and "k110,n1 " in l and len(l.split(" ")[3]) < 300]
     impl, faults = core.run_lines_parallel(exe, lines + thr_lines, jobs=12)
     all_lines = lines + thr_lines
     for i, kind, err in faults:
